@@ -42,6 +42,8 @@ T = [
  ("C03-retain-last-is-free", "C03", "C03-out", "patch2.diff", "seeded_C03_2.rs", "C03b", ["c03b"], "as C01-retain-wraparound (found independently, different initialisation)"),
  ("C15-export-ids-levels", "C15", "C15-out", "patch.diff", "seeded_C15.rs", "C15a", ["c15a"], "non-identity order and a variable outside the support such that support levels differ from support variables"),
  ("C15-ascii-child-level", "C15", "C15-out", "patch2.diff", "seeded_C15_2.rs", "C15b", ["c15b"], "malformed ASCII file where a node has the same variable as an inner child"),
+ ("C19-zbdd-makenode-lo-invalid-leak", "C19", "C19-out", "patch.diff", "demo1_zbdd_make_node.c", "C19a", ["C19-a"], "oxidd_zbdd_make_node with valid var and hi but an INVALID lo (e.g. the result of a failed operation): hi's reference is lost"),
+ ("C19-bcdd-substitution-id-from-address", "C19", "C19-out", "patch2.diff", "demo2_bcdd_substitution.c", "C19b", ["C19-b"], "BCDD substitution ids derived from the object's address: free a substitution, create another one (allocator reuses the block), apply it to the same function with no gc in between"),
  ("C20-pointer-varlevelmap", "C20", "C20-out", "patch.diff", "seeded_C20.rs", "C20a", ["c20a"], "pointer-based manager only: a reordering that swaps a level whose variable number differs from its level number"),
  ("C20-nomt-apply-unique-swap", "C20", "C20-out", "patch2.diff", "demo2_seeded_C20_2.rs", "C20b", ["c20b"], "build without multi-threading only: apply_unique with Imp/ImpStrict on simple BDDs"),
 ]
